@@ -1,5 +1,6 @@
 From Coq Require Extraction ExtrOcamlBasic.
 From Common Require Import Words.
-From Avl Require Import AvlSpec AvlModel.
+From Avl Require Import AvlSpec AvlModel AvlHeapModel.
 Extraction Language OCaml.
-Extraction "model.ml" anchor m_init s_init step spec_step choice_of m_sel s_sel m_other s_other inorder size.
+Extraction "model.ml" anchor m_init s_init step spec_step choice_of m_sel s_sel m_other s_other inorder size
+  h_init hstep h_sel h_other.
